@@ -52,6 +52,7 @@ type opRec struct {
 	recv       bool
 	start, end time.Duration // since t0; end < 0: still blocked
 	failed     bool          // the call returned an error
+	skip404    bool          // … namely the transport-level -404 injected by the tap
 }
 
 // tap wraps the client's end of the pipe.
@@ -164,6 +165,7 @@ func (t *tap) Recv(ctx context.Context, b *bin.Buffer) (rerr error) {
 		t.mu.Lock()
 		t.pre404 = false
 		t.target = i + 1
+		t.ops[i].skip404 = true
 		t.mu.Unlock()
 		return &codec.ProtocolErr{Code: codec.CodeAuthKeyNotFound}
 	}
@@ -495,41 +497,68 @@ func ClientIOErr(err error) bool {
 
 type cmp struct{ input, impl, model string }
 
+type mstep struct{ recv, timed, inLoop bool }
+
+func parseSteps(ans string) []mstep {
+	var out []mstep
+	for _, w := range strings.Fields(ans) {
+		if f := strings.Split(w, ":"); len(f) == 4 {
+			out = append(out, mstep{f[1] == "1", f[2] == "1", f[3] == "1"})
+		}
+	}
+	return out
+}
+
 // compare runs the model on the measured gaps/latencies of one observation and returns the
 // comparisons (impl already canonicalised: equal to the model's answer when they agree up to the
-// allowed real-time slack).
-func compare(c *hc.Ctx, tc tcase, o outcome, modelSteps []string) ([]cmp, error) {
+// allowed real-time slack).  The observed calls are matched to the model's call sites: a call that
+// returned the injected -404 is a "skip" of the site it belongs to, the next call is the same site
+// re-issued.
+func compare(c *hc.Ctx, tc tcase, o outcome, steps []mstep) ([]cmp, error) {
 	var out []cmp
-	if len(o.ops) == 0 || tc.action == "stall404" {
-		return nil, nil // the -404 skip loop has no counterpart in the step model: monitor only
+	if len(o.ops) == 0 || len(steps) == 0 {
+		return nil, nil
 	}
 	if tc.action == "slow" && tc.level == "exchange" && o.returned && o.err == nil {
 		var obs, mod []string
 		for _, op := range o.ops {
 			obs = append(obs, map[bool]string{false: "send", true: "recv"}[op.recv])
 		}
-		for _, s := range modelSteps {
-			if f := strings.Split(s, ":"); len(f) == 3 {
-				mod = append(mod, map[string]string{"0": "send", "1": "recv"}[f[1]])
-			}
+		for _, s := range steps {
+			mod = append(mod, map[bool]string{false: "send", true: "recv"}[s.recv])
 		}
 		out = append(out, cmp{"call-sequence " + tc.String(), strings.Join(obs, ","), strings.Join(mod, ",")})
 	}
-	for base := 0; base < len(o.ops); base += 6 {
-		seg := o.ops[base:min(base+6, len(o.ops))]
+	disturbed := tc.op
+	if tc.action == "stall404" {
+		disturbed++
+	}
+	idx := 0
+	for idx < len(o.ops) { // one exchange per pass (PFS runs two)
 		var beh []string
-		now := seg[0].start
+		now := o.ops[idx].start
 		prevEnd := now
 		okPattern := ""
-		for j, op := range seg {
+		var last opRec
+		for range steps {
+			if idx >= len(o.ops) {
+				break
+			}
+			op := o.ops[idx]
 			gap := op.start - prevEnd
+			var skips []string
+			for op.skip404 && idx+1 < len(o.ops) {
+				skips = append(skips, optUs(op.end-op.start))
+				okPattern += "1"
+				idx++
+				op = o.ops[idx]
+			}
 			lat := "-"
-			idx := base + j
 			switch {
-			case idx == tc.op && tc.action == "stall":
-			case idx == tc.op && op.end >= 0 && !op.failed:
+			case idx == disturbed && (tc.action == "stall" || tc.action == "stall404"):
+			case idx == disturbed && op.end >= 0 && !op.failed:
 				lat = optUs(op.end - op.start) // answered: after the configured delay, as measured
-			case idx == tc.op:
+			case idx == disturbed:
 				lat = optUs(tc.delay())
 			case op.end >= 0 && !op.failed:
 				lat = optUs(op.end - op.start)
@@ -538,7 +567,11 @@ func compare(c *hc.Ctx, tc tcase, o outcome, modelSteps []string) ([]cmp, error)
 				// call's context ended — for the model: a latency beyond that point
 				lat = optUs(op.end - op.start + time.Second)
 			}
-			beh = append(beh, fmt.Sprintf("%d:%s", us(gap), lat))
+			sk := "-"
+			if len(skips) > 0 {
+				sk = strings.Join(skips, ",")
+			}
+			beh = append(beh, fmt.Sprintf("%d;%s;%s", us(gap), sk, lat))
 			if op.end >= 0 {
 				prevEnd = op.end
 			}
@@ -546,6 +579,11 @@ func compare(c *hc.Ctx, tc tcase, o outcome, modelSteps []string) ([]cmp, error)
 				okPattern += "1"
 			} else {
 				okPattern += "0"
+			}
+			last = op
+			idx++
+			if op.end < 0 || op.failed {
+				break
 			}
 		}
 		// the caller context seen by the exchange: the given one, or for a plain connect the
@@ -555,7 +593,6 @@ func compare(c *hc.Ctx, tc tcase, o outcome, modelSteps []string) ([]cmp, error)
 			dl = dialTO
 		}
 		line := fmt.Sprintf("trace %d %s %d %s", us(tc.timeout), optUs(dl), us(now), strings.Join(beh, " "))
-		last := seg[len(seg)-1]
 		lastStop := "never"
 		if last.end >= 0 {
 			lastStop = strconv.FormatInt(us(last.end), 10)
@@ -587,6 +624,9 @@ func compare(c *hc.Ctx, tc tcase, o outcome, modelSteps []string) ([]cmp, error)
 			}
 		}
 		out = append(out, cmp{tc.String() + " | " + line, impl, model})
+		if last.end < 0 || last.failed {
+			break
+		}
 	}
 	return out, nil
 }
@@ -621,10 +661,10 @@ func run(c *hc.Ctx) error {
 	}
 	outs := runAll(cases, 6)
 
-	var modelSteps []string
+	var modelSteps []mstep
 	noModel := false
 	if ans, err := c.Drv.Ask("steps"); err == nil {
-		modelSteps = strings.Fields(ans)
+		modelSteps = parseSteps(ans)
 	} else {
 		noModel = true
 	}
@@ -693,7 +733,7 @@ func run(c *hc.Ctx) error {
 	c.Res.Exhaustive = c.Replay == ""
 	c.Res.Rule = "grid: exchange level = 6 transport calls × {permanent, temporary} × caller deadline {none, 120 s, inside the step} with a silent peer, + late (timeout + 3 s) and slow (300 ms, timeout 3 s) answers at each call, + a transport -404 followed by silence at the ResPQ read; mtproto.Conn.Run level = connect without PFS (6 calls, dial timeout 60 s), with PFS (12 calls), re-keying after -404 (6 calls), silent peer at each call, + one slow run each; timeouts from {120,150,200,260} ms; non-trivial = the peer is silent or late at some call; distinct = distinct case line"
 	c.PartialNote("real scheduler/timer latency is outside the model: a call counts as bounded when it returns within timeout + 5 s (the unbounded alternatives are ≥ 60 s or never); the model's predicted return time is compared with the same slack; a failing observation is repeated once before it is reported")
-	c.PartialNote("readUnencrypted re-arms the timeout for every transport-level -404 frame it skips; a peer that keeps sending -404 is not silent and is outside the property's quantifier; one -404 followed by silence is exercised by the monitor only (the step model has no -404 frames)")
+	c.PartialNote("readUnencrypted re-arms the timeout for every transport-level -404 frame it skips; a peer that keeps sending -404 is not silent and is outside the property's quantifier; one -404 followed by silence at the ResPQ read is part of the grid (the model re-issues a call inside the retry loop)")
 	c.PartialNote("the stalling transport ends a call when its context ends (deadline or cancel); transport.connection honours deadlines only; the `near` caller deadline is a cancellation armed when the disturbed step starts")
 	sort.Strings(c.Res.Notes)
 	if noModel {
